@@ -464,15 +464,21 @@ def generate(X):
             "name": name, "cls": cls.__name__, "dims": [X.jdim(X.dim_vec(d)) for d in dims], "dims_str": [str(d) for d in dims],
             "params": [[p, X.bits(v)] for p, v in params], "branches": jb,
         })
-    # what `np.power` does with a unit that has an offset (`Unit.__pow__` through `_power_unit`):
-    # raises (which class) or silently drops the offset
+    # what becomes of a reading on an offset scale that a chain raises to a power: `np.power`
+    # itself refuses it (`Unit.__pow__`), or the next multiply/divide applied to the power does
+    # (`Unit.__mul__` / `_cancel_mul` see the offset atom), or nobody does (the offset is dropped)
     ERRS = {"UnitOperationError", "UnitConversionError", "UnitParseError", "InvalidUnitOperation", "UnitInconsistencyError",
             "InvalidUnitEquivalence", "TypeError", "ValueError", "RuntimeError", "KeyError"}
+    pow_refuses, pow_stage = None, None
     try:
-        np.power(unyt.unyt_array(np.array([1.0]), "degC"), 4)
-        pow_refuses = None
-    except Exception as e:  # noqa: BLE001 - the class is the datum
-        pow_refuses = type(e).__name__
+        powered = np.power(unyt.unyt_array(np.array([1.0]), "degC"), 4)
+        try:
+            np.multiply(unyt.unyt_quantity(1.0, "W/m**2/K**4"), powered)
+        except Exception as e:  # noqa: BLE001 - the class is the datum
+            pow_refuses, pow_stage = type(e).__name__, "multiply-after-power"
+    except Exception as e:  # noqa: BLE001
+        pow_refuses, pow_stage = type(e).__name__, "power"
+    J["pow_stage"] = pow_stage
     J["pow_refuses"] = pow_refuses
     lean_pow = "none" if pow_refuses is None else f"(some .{pow_refuses})" if pow_refuses in ERRS else "(some .Other)"
     crow = []
@@ -493,8 +499,9 @@ def generate(X):
         "    parameters of `_convert` with the bits of their defaults, and for every ordered pair of\n"
         "    distinct `_dims` the recorded ufunc chain in copy mode and in in-place mode -/\n"
         "def equivalences : List EquivRec := [\n" + ",\n".join(recs) + "\n]\n\n"
-        "/-- what `np.power` / `np.sqrt` do with a unit that has an offset (probe: `np.power(1 degC, 4)`):\n"
-        "    `some err` = raise `err`, `none` = drop the offset silently -/\n"
+        "/-- what becomes of a reading on an offset scale that a chain raises to a power (probe:\n"
+        "    `np.multiply(1 W/m**2/K**4, np.power(1 degC, 4))`): `some err` = `power` itself or the\n"
+        "    multiply applied to the power raises `err`, `none` = the offset is dropped silently -/\n"
         f"def powRefuses : Option Err := {lean_pow}\n\nend Unyt.Generated\n"
     )
     X.write_if_changed(os.path.join(X.GEN, "EquivFormulas.lean"), text)
